@@ -174,3 +174,100 @@ contract(SO + '::ScipyOptimizeDriver._con_val_func', ['C21'],
          name=SO + '::ScipyOptimizeDriver._con_val_func',
          canaries=[('stale cache served when scipy asks for a new point first (the defect repaired in /repo)',
                     ('elif self._con_cache_x is None or not np.array_equal(self._con_cache_x, x_new):', 'elif self._con_cache_x is None:'), 'post')])
+
+
+# ---- _gradfunc: the gradient belongs to the point scipy asked about, and is scipy's to keep ----------------------
+# Two defects repaired in /repo: (1) trust-constr asks for the gradient at a new point BEFORE the objective, and the
+# model was then linearized at the previous point; (2) the returned row was a view of the total-jacobian array that
+# the next call overwrites (quasi-Newton updates use grad_new - grad_old).
+def _obj_ghost(it, env, res):
+    it.ctx.ghost['evaluated_at'] = it.last_assumed_args[0]
+
+
+contract(SO + '::ScipyOptimizeDriver._gradfunc', ['C21'],
+         dict(self=Obj('ScipyOptimizeDriver', _con_cache_x=OneOf(None, Arr('nx')), _check_jac=False, _total_jac=None, _exc_info=None,
+                       _grad_cache=OneOf(None, Arr('m', 'nx')), _obj_and_nlcons=OpaqueT('ofs'), _dvlist=OpaqueT('wrts'), _total_jac_format='array',
+                       _problem=Callable(Obj('Problem', model=Obj('Group'))),
+                       options=DictT({'singular_jac_behavior': 'warn', 'singular_jac_tol': Real()})),
+              x_new=Arr('nx')),
+         requires=['m >= 1'],
+         ensures=['len(result) == nx and all(result[i] == self._grad_cache[0, i] for i in range(nx))',
+                  # the caller owns the result: later total-jacobian updates must not show through
+                  'not shares_memory(result, self._grad_cache)',
+                  # cache coherence: if a model point is on record, it is x_new when the totals are computed
+                  'implies(old(self._con_cache_x) is not None, self._con_cache_x is not None and len(self._con_cache_x) == nx and all(self._con_cache_x[i] == x_new[i] for i in range(nx)))'],
+         modifies=['self._con_cache_x', 'self._grad_cache', 'self._con_cache'], returns=Arr('nx'),
+         assumed={'self._objfunc': Assumed(sets={'self._con_cache_x': Arr('nx')}, ghost=_obj_ghost,
+                                           ensures=['self._con_cache_x is not None and len(self._con_cache_x) == len(arg0) and all(self._con_cache_x[i] == arg0[i] for i in range(len(arg0)))'],
+                                           note='_objfunc(x): runs the model at x and records x in _con_cache_x'),
+                  'self._compute_totals': Assumed(returns=Arr('m', 'nx'),
+                                                  requires=['self._con_cache_x is None or all(self._con_cache_x[i] == x_new[i] for i in range(nx))'],
+                                                  note='total derivatives at the CURRENT model point (precondition: that point is x_new, or no point is on record yet = the initial run at x_init)')},
+         name=SO + '::ScipyOptimizeDriver._gradfunc',
+         canaries=[('gradient returned as a view of the reused array (the defect repaired in /repo)', ('return grad[0, :].copy()', 'return grad[0, :]'), 'post'),
+                   ('model not moved to the new point before linearizing (the defect repaired in /repo)',
+                    ('if self._con_cache_x is not None and not np.array_equal(self._con_cache_x, x_new):', 'if False:'), 'pre@callee')])
+
+
+# ---- new-style LINEAR constraints: LinearConstraint(A, lb, ub) handed to scipy --------------------------------
+# The model's constraint is the affine function c(x) = c(x_init) + G (x - x_init), G = rows [start, start+size) of the
+# precomputed linear-constraint jacobian.  scipy enforces lb' <= A' x <= ub'; that is `lb <= c(x) <= ub` for every x
+# exactly when A' = G and lb' = lb - (c(x_init) - G x_init), ub' = ub - (c(x_init) - G x_init), row by row.
+# (Defect repaired in /repo: only row `start` was handed over and the constant term was dropped.)
+def _lin_app_ghost(it, env, res):
+    it.ctx.ghost['lin_con'] = it.last_assumed_args[0]
+    it.ctx.ghost['n_app'] = scalar_add1(it.ctx.ghost['n_app'])
+
+
+def scalar_add1(v):
+    from pyvc.values import scalar_arith
+    return scalar_arith('+', v, 1)
+
+
+CONST_I = "(self._con_cache['con'][_i] - Sum(nx, lambda k: lincongrad[start + _i, k] * x_init[k]))"
+LC = "ghost('lin_con')"
+for _eq in (False, True):
+    contract(SO + '::ScipyOptimizeDriver.run@ifbody(NonlinearConstraint)', ['C21'],
+             dict(equals=(Arr('size') if _eq else None), lower=Arr('size'), upper=Arr('size'), linear=True, lincongrad=Arr('mlin', 'nx'), name='con',
+                  x_init=Arr('nx'),
+                  self=Obj('ScipyOptimizeDriver', _con_idx=DictT({'con': Size('start')}), _con_cache=DictT({'con': Arr('size')})),
+                  size=Size('size'), con=None, constraints=Obj('list')),
+             requires=['size >= 1', 'start + size <= mlin'],
+             ensures=[N + ' == 1', LC + "[0] == 'lc'",
+                      'len(%s[3]) == size and all(all(%s[3][_i, k] == lincongrad[start + _i, k] for k in range(nx)) for _i in range(size))' % (LC, LC),
+                      'all(approx(%s[1][_i], %s[_i] - %s) for _i in range(size))' % (LC, 'equals' if _eq else 'lower', CONST_I),
+                      'all(approx(%s[2][_i], %s[_i] - %s) for _i in range(size))' % (LC, 'equals' if _eq else 'upper', CONST_I)],
+             modifies=[], name=SO + '::ScipyOptimizeDriver.run[new-style linear constraints%s]' % (', equality' if _eq else ''),
+             ghost_init={'n_app': 0, 'lin_con': None},
+             defs={'opaque_classes': ['WeakMethodWrapper']},
+             assumed={'LinearConstraint': Assumed(returns_expr="('lc', kw_lb, kw_ub, kw_A)", note='scipy.optimize.LinearConstraint(A, lb, ub): lb <= A x <= ub'),
+                      'NonlinearConstraint': Assumed(returns_expr="('nlc', kw_lb, kw_ub, kw_fun, kw_jac)"),
+                      'signature_extender': Assumed(returns_expr="('ext', arg0, arg1)"),
+                      'constraints.append': Assumed(ghost=_lin_app_ghost, note='list.append on the constraint list handed to scipy.optimize.minimize')},
+             canaries=[('only the first row of the constraint handed over (the defect repaired in /repo)',
+                        ('lin_A = lincongrad[lin_start:lin_start + size]', 'lin_A = lincongrad[lin_start:lin_start + 1]'), 'post', SO + '::ScipyOptimizeDriver.run'),
+                       ('constant term of the affine constraint dropped (the defect repaired in /repo)',
+                        ('lb=lb - lin_const, ub=ub - lin_const', 'lb=lb, ub=ub'), 'post', SO + '::ScipyOptimizeDriver.run')] if not _eq else [])
+
+
+# ---- _congradfunc: the jacobian row handed to scipy is the derivative of the VALUE handed to scipy ---------------
+# old style (_confunc): value = upper - c when dbl or no lower bound (negated), c - lower otherwise, c - equals for eq;
+# new style (_con_val_func): value = c.  (Defect repaired in /repo: new-style rows of upper-only elements were negated.)
+ROW = "self._grad_cache[self._con_idx['con'] + idx, k]"
+for _opt, _new in (('SLSQP', False), ('trust-constr', True)):
+    for _lowarr in (False, True):
+        LOWI = "self._cons['con']['lower'][idx]" if _lowarr else "self._cons['con']['lower']"
+        contract(SO + '::ScipyOptimizeDriver._congradfunc', ['C21'],
+                 dict(self=Obj('ScipyOptimizeDriver', _exc_info=None, options=DictT({'optimizer': _opt}), _grad_cache=Arr('m', 'nx'), _lincongrad_cache=None,
+                               _con_idx=DictT({'con': Size('start')}),
+                               _cons=DictT({'con': DictT({'linear': False, 'equals': OneOf(None, OpaqueT('equals')), 'lower': (Arr('n') if _lowarr else Real())})})),
+                      x_new=Arr('nx'), name='con', dbl=OneOf(False, True), idx=Int(0, None)),
+                 requires=['idx < n' if _lowarr else 'idx >= 0', 'start + idx < m'],
+                 ensures=['len(result) == nx',
+                          ("all(result[k] == %s for k in range(nx))" % ROW) if _new else
+                          ("all(result[k] == (%s if (self._cons['con']['equals'] is not None or not (dbl or %s <= -INF_BOUND)) else -%s) for k in range(nx))" % (ROW, LOWI, ROW))],
+                 modifies=[], returns=Arr('nx'), defs={'_use_new_style': True},
+                 name=SO + '::ScipyOptimizeDriver._congradfunc[%s, %s lower]' % ('new-style' if _new else 'old-style', 'array' if _lowarr else 'scalar'),
+                 canaries=([('new-style jacobian rows of upper-only elements negated (the defect repaired in /repo)',
+                             ("if self.options['optimizer'] in _supports_new_style and _use_new_style:\n            # new-style", "if False:\n            # new-style"), 'post')] if _new and not _lowarr else
+                           [('old-style upper-side row not negated', ('return -grad[grad_idx, :]', 'return grad[grad_idx, :]'), 'post')] if not _new and _lowarr else []))
